@@ -39,6 +39,10 @@ def run(ctx):
         mech.dedup_guard(ctx, "at-most-once", crate, crs, ENC + "queue_package", "clauses_added_for_package", tag)
         mech.cancel_safety(ctx, crate, crs, tag)
         mech.drain_complete(ctx, "drain-complete", crate, crs, tag)
+        # "frozen (insert-only) caches return stable references across awaits": the arena / frozen-map rules of C18
+        import c18
+        ctx.guard("append-only" + tag, c18.append_only, ctx, crate, crs, tag)
+        ctx.guard("chunk-stability" + tag, c18.chunk_stability, ctx, crate, crs, tag)
 
 
 def upvars(ctx, crate, tag):
